@@ -60,6 +60,10 @@ def gen(ctx):
     fw = (core.REPO / "alpenhorn/io/default.py").read_text()
     if "entry.is_dir(follow_symlinks=False)" not in fw or "entry.is_file() and not entry.is_symlink()" not in fw:
         raise T.Untranslatable("UNTRANSLATABLE: file_walk's symlink tests changed")
+    sc = ast.unparse(T.find_func(aut, "scan"))
+    for frag in ("node.db.get_all_files(present=True, corrupt=True, unknown=True)", "if file in already_imported_files:", "import_file(node, queue, file, register, None)"):
+        if frag not in sc:
+            raise T.Untranslatable(f"UNTRANSLATABLE: scan no longer contains `{frag}`")
     return {"Gen_import": T.HEADER + "\n".join(d) + "\n"}
 
 
@@ -305,10 +309,25 @@ def run_scan(ctx, base, rng):
             (root / "acq2").mkdir(exist_ok=True)
             if not (root / "acq2" / "loop").exists():
                 os.symlink(root / "acq2", root / "acq2" / "loop")
+        # some of the importable files are registered already, with a copy record in every state
+        pre = {}
+        for rel in made:
+            p = root / rel
+            parts = pathlib.PurePath(rel).parts
+            if p.is_symlink() or not p.is_file() or any(x.startswith(".") for x in parts) or (p.parent / f".{p.name}.lock").exists() or rng.random() < 0.55:
+                continue
+            acq = w.mkacq(parts[0])
+            if w.ArchiveFile.get_or_none(acq=acq, name="/".join(parts[1:])) is not None:
+                continue
+            f = w.mkfile(acq, "/".join(parts[1:]), p.read_bytes())
+            st = rng.choice([("N", "N"), ("N", "N"), ("N", "Y"), ("Y", "Y"), ("M", "Y"), ("X", "Y")])
+            w.mkcopy(node, f, st[0], st[1], size_b=f.size_b)
+            pre[(parts[0], "/".join(parts[1:]))] = st
+        rp["preregistered"] = {"/".join(k): v for k, v in pre.items()}
         (root / "toplevel").write_text("x")
         w.ArchiveFileImportRequest.create(node=node, path=rng.choice([".", "acq1", "acq2"]) if (root / "acq1").exists() and (root / "acq2").exists() else ".", recurse=True, register=True, completed=False)
         scanned = w.ArchiveFileImportRequest.get(id=1).path
-        for _ in range(2):
+        for _ in range(3):
             res = sim.iterate("h1")
             if res["error"]:
                 ctx.fail("C04:daemon-died", f"the daemon died scanning: {res['error'][:300]}", rp)
@@ -328,9 +347,22 @@ def run_scan(ctx, base, rng):
                 exp[(rel.parts[0], "/".join(rel.parts[1:]))] = (len(data), hashlib.md5(data).hexdigest())
         got = {(f.acq.name, f.name): (f.size_b, f.md5sum) for f in w.ArchiveFile.select()}
         copies = {(c.file.acq.name, c.file.name): (c.has_file, c.wants_file) for c in w.ArchiveFileCopy.select()}
+        # files registered beforehand that lie outside the scanned directory stay as they were
+        for k, st in pre.items():
+            if k not in exp:
+                exp[k] = got.get(k)
         if got != exp:
             ctx.fail("C04:scan-registration", f"scan of {scanned!r}: registered {sorted(got)} but the tree holds {sorted(exp)} importable files (differences: {sorted(set(got) ^ set(exp))[:5]})", rp)
-        if any(v != ("Y", "Y") for v in copies.values()) or set(copies) != set(got):
+        top_rel = None if scanned == "." else scanned
+        for k, v in copies.items():
+            inside = top_rel is None or k[0] == top_rel
+            st = pre.get(k)
+            # every importable file on disk under the scanned directory ends with one present copy; a copy recorded corrupt stays so
+            # (the daemon does not re-verify it); outside the scanned directory nothing but the check of suspect copies happens
+            want = ("X", "Y") if st == ("X", "Y") else ("Y", "Y") if (inside or st in (("Y", "Y"), ("M", "Y"))) else st
+            if v != want:
+                ctx.fail("C04:scan-copies", f"scan of {scanned!r}: copy of {'/'.join(k)} is {v}, expected {want} (state before the scan: {st})", rp)
+        if set(copies) != set(got):
             ctx.fail("C04:scan-copies", f"scan: copies {copies}", rp)
         if not w.ArchiveFileImportRequest.get(id=1).completed:
             ctx.fail("C04:scan-pending", "the scan request was not completed", rp)
